@@ -264,13 +264,16 @@ struct Cond {
     bool ims; time_t imsTime; // If-Modified-Since as clientInterpretRequestHeaders() leaves it: flags.ims + ims (> 0)
 };
 
+static bool onlyImsWithoutLm = false; // set by c14_known_ims_without_lm only
 static void conditional(const Cond &c)
 {
-    // KNOWN-FINDING candidate: a cached reply WITHOUT Last-Modified is treated as last modified at StoreEntry::timestamp (its
-    // Date / time of receipt): StoreEntry::lastModified() falls back to the timestamp, so If-Modified-Since >= timestamp gets 304,
-    // where RFC 9110 13.1.3 says the field MUST be ignored when no modification date is available (found by c14_ims: no ETag, no
-    // Last-Modified, timestamp 1000000000, If-Modified-Since 1000000001, GET or HEAD -> 304). Excluded: exactly that class.
-    vf_assume(!(c.ims && !c.ifNoneMatch.present && c.lastModified < 0 && c.timestamp >= 0 && c.timestamp <= c.imsTime));
+    // KNOWN FINDING (known_findings.json, C14-ims-without-last-modified): a cached reply WITHOUT Last-Modified is treated as last
+    // modified at StoreEntry::timestamp (its Date / time of receipt): StoreEntry::lastModified() falls back to the timestamp, so
+    // If-Modified-Since >= timestamp gets 304, where RFC 9110 13.1.3 says the field MUST be ignored when no modification date is
+    // available (found by c14_ims: no ETag, no Last-Modified, timestamp 1000000000, If-Modified-Since 1000000001, GET or HEAD ->
+    // 304). The class is examined by its own entry (c14_known_ims_without_lm), every other entry excludes exactly this class.
+    const bool imsWithoutLm = c.ims && !c.ifNoneMatch.present && c.lastModified < 0 && c.timestamp >= 0 && c.timestamp <= c.imsTime;
+    vf_assume(imsWithoutLm == onlyImsWithoutLm);
     Hit h = makeHit(c.status, c.etag, c.lastModified, c.timestamp);
     h.req->method = HttpRequestMethod(static_cast<Http::MethodType>(c.method));
     if (c.ifMatch.present) h.req->header.addEntry(new HttpHeaderEntry(Http::HdrType::IF_MATCH, SBuf(), reinterpret_cast<const char *>(c.ifMatch.b)));
@@ -387,6 +390,23 @@ extern "C" void c14_ims(void)
     conditional(c);
 }
 
+// KNOWN FINDING (known_findings.json, C14-ims-without-last-modified): cached 200 reply without ETag and Last-Modified,
+// If-Modified-Since not earlier than the entry's timestamp
+extern "C" void c14_known_ims_without_lm(void)
+{
+    vf_quiet();
+    onlyImsWithoutLm = true;
+    Cond c;
+    c.status = 200;
+    c.etag = absent;
+    c.lastModified = -1;
+    c.timestamp = (time_t)vf_range(0, 0x7fffffff, "timestamp");
+    c.method = symbolicMethod(false);
+    c.ifMatch = absent; c.ifNoneMatch = absent;
+    c.ims = true; c.imsTime = (time_t)vf_range(1, 0x7fffffff, "ims");
+    conditional(c);
+}
+
 // all three validators at once: the evaluation order of RFC 9110 13.2.2 (If-Match, then If-None-Match, which switches
 // If-Modified-Since off, then If-Modified-Since)
 extern "C" void c14_order(void)
@@ -426,7 +446,8 @@ static bool sameVal(const Val &a, const Val &b)
     return eq;
 }
 
-extern "C" void c14_merge(void)
+static bool only304ContentLength = false; // set by c14_known_304_content_length only
+static void merge(const int fixedSet)
 {
     vf_quiet();
     Config.maxReplyHeaderSize = 65536; // default reply_header_max_size
@@ -460,7 +481,7 @@ extern "C" void c14_merge(void)
         { {"Vary", "x-w"}, {"X-A", SYM}, {nullptr, nullptr} },    // Vary is never updated (the variant key depends on it)
         { {"Content-Length", SYM}, {nullptr, nullptr} },          // RFC 9111 3.2: Content-Length is not updated
     };
-    const unsigned which = vf_choose(sizeof(sets) / sizeof(*sets), "set");
+    const unsigned which = fixedSet >= 0 ? (unsigned)fixedSet : vf_choose(sizeof(sets) / sizeof(*sets), "set");
     HttpReply *r304 = new HttpReply;
     r304->sline.set(Http::ProtocolVersion(1, 1), Http::scNotModified);
     const char *const date304 = which == 4 ? DATE_OLD : DATE_NEW; // set 4: a 304 that brings nothing new at all
@@ -468,11 +489,15 @@ extern "C" void c14_merge(void)
     Val sent[3]; unsigned nSent = 0;
     for (const Field *f = sets[which]; f->name; ++f) {
         sent[nSent] = fillVal(f->value, "v");
-        // KNOWN-FINDING candidate: a 304 whose Content-Length differs from the stored reply's (e.g. "Content-Length: 0", which some
-        // origins send with 304) replaces the stored Content-Length: HttpHeader::update() exempts only Vary, although RFC 9111 3.2
-        // exempts Content-Length too; later hits then declare a body length that is not the stored body's (found by c14_merge:
-        // stored Content-Length 5, 304 with Content-Length 0 -> freshestReply() has Content-Length 0). Excluded: exactly that class.
-        if (!strcmp(f->name, "Content-Length")) vf_assume(sent[nSent].b[0] == '5');
+        // KNOWN FINDING (known_findings.json, C14-304-content-length): a 304 whose Content-Length differs from the stored reply's
+        // (e.g. "Content-Length: 0", which some origins send with 304) replaces the stored Content-Length: HttpHeader::update()
+        // exempts only Vary, although RFC 9111 3.2 exempts Content-Length too; later hits then declare a body length that is not
+        // the stored body's (found by c14_merge: stored Content-Length 5, 304 with Content-Length 0 -> freshestReply() has
+        // Content-Length 0). The class is examined by its own entry (c14_known_304_content_length), every other entry excludes it.
+        if (!strcmp(f->name, "Content-Length")) {
+            vf_assume(sent[nSent].b[0] >= '0' && sent[nSent].b[0] <= '9'); // a Content-Length that parses
+            vf_assume((sent[nSent].b[0] != '5') == only304ContentLength);
+        }
         addField(r304->header, f->name, reinterpret_cast<const char *>(sent[nSent].b));
         ++nSent;
     }
@@ -513,3 +538,6 @@ extern "C" void c14_merge(void)
     reachEither(&fresh != rep, "updated", "nothing-new");
     WITNESS_POINT();
 }
+extern "C" void c14_merge(void) { merge(-1); }
+// KNOWN FINDING (known_findings.json, C14-304-content-length): the origin's 304 carries 'Content-Length: d', d a digit other than 5
+extern "C" void c14_known_304_content_length(void) { only304ContentLength = true; merge(7); }
